@@ -313,7 +313,7 @@ fn structure_edits__frame_and_errors() {
     println!("VERIF-COUNT structure_edits__frame_and_errors {n}");
 }
 
-// @obl props=C01,C02,C03 tier=quick fn=abe_policy::Dimension::restrict shape="hierarchies of 1..4 attributes built in every insertion order (after = any existing / None); restrict at every rank"
+// @obl props=C01,C02,C03 tier=quick fn=abe_policy::Dimension::restrict shape="hierarchies of 1..4 attributes built in every insertion order (after = any existing / None), then every single deletion; order, name lookup and restriction at every rank"
 #[test]
 fn hierarchy__order_and_restriction() {
     // build hierarchies by inserting "n{k}" after a chosen existing attribute, track the expected order in a Vec
@@ -338,6 +338,28 @@ fn hierarchy__order_and_restriction() {
                 _ => panic!("C01: restriction of a hierarchy is a hierarchy"),
             }
             n += 1;
+        }
+        // deletions: the remaining attributes keep order, parameters and restrictions; lookups by name stay right
+        for del in 0..order.len() {
+            let mut s2 = s.clone();
+            s2.del_attribute(&QualifiedAttribute::new("H", &order[del])).unwrap();
+            let mut o2 = order.clone();
+            o2.remove(del);
+            let names2: Vec<String> = s2.dimensions["H"].get_attributes_name().cloned().collect();
+            assert!(names2 == o2, "C03: after deleting {} from {order:?} the order is {names2:?}", order[del]);
+            for (rank, name) in o2.iter().enumerate() {
+                let want = s.dimensions["H"].get_attribute(name).unwrap();
+                assert!(s2.dimensions["H"].get_attribute(name) == Some(want), "C02/C03: after deleting {} from {order:?}, the name {name} resolves to another attribute (or to none)", order[del]);
+                match s2.dimensions["H"].restrict(name.clone()).unwrap() {
+                    Dimension::Hierarchy(d) => {
+                        let got: Vec<(String, Attribute)> = d.iter().map(|(k, v)| (k.clone(), v.clone())).collect();
+                        let exp: Vec<(String, Attribute)> = o2[..=rank].iter().map(|k| (k.clone(), s.dimensions["H"].get_attribute(k).unwrap().clone())).collect();
+                        assert!(got == exp, "C01/C02: after deleting {} from {order:?}, the restriction to {name} is {got:?}, expected {exp:?}", order[del]);
+                    }
+                    _ => panic!("C01: restriction of a hierarchy is a hierarchy"),
+                }
+                n += 1;
+            }
         }
         if order.len() < 4 {
             let k = order.len();
